@@ -1,5 +1,4 @@
 import math
-import random
 import warnings
 
 import numpy as np
@@ -248,10 +247,10 @@ def merge_lines(baselines, heights):
 
     baselines = [np.asarray(baseline) for baseline in baselines]
 
-    baselines_order = [baseline[0][1] + random.uniform(0.001, 0.999) for baseline in
-                       baselines]  # adding random number to order to prevent swapping when two lines are on same y-coord
-    baselines = [baseline for _, baseline in sorted(zip(baselines_order, baselines))]
-    heights = [height for _, height in sorted(zip(baselines_order, heights))]
+    # stable sort by the y-coord of the first point: lines on the same y-coord keep their order
+    order = sorted(range(len(baselines)), key=lambda i: baselines[i][0][1])
+    baselines = [baselines[i] for i in order]
+    heights = [heights[i] for i in order]
 
     baselines = [rotate_coords(baseline, -rotation, (0, 0)) for baseline in baselines]
 
@@ -264,10 +263,11 @@ def order_lines_vertical(baselines, heights, textlines):
     :param heights: list of respective textline heights
     :param textlines: list of respective textline polygons
     """
-    baselines_order = [baseline[0][1]+random.uniform(0.001, 0.999) for baseline in baselines]  # adding random number to order to prevent swapping when two lines are on same y-coord
-    baselines = [baseline for _, baseline in sorted(zip(baselines_order, baselines))]
-    heights = [height for _, height in sorted(zip(baselines_order, heights))]
-    textlines = [textline for _, textline in sorted(zip(baselines_order, textlines))]
+    # stable sort by the y-coord of the first point: lines on the same y-coord keep their order
+    order = sorted(range(len(baselines)), key=lambda i: baselines[i][0][1])
+    baselines = [baselines[i] for i in order]
+    heights = [heights[i] for i in order]
+    textlines = [textlines[i] for i in order]
 
     return baselines, heights, textlines
 
